@@ -1,5 +1,5 @@
 SPECIFICATION Spec
-CONSTANT Univ <- UnivQuick
+CONSTANTS Univ <- UnivQuick  EmitHist = FALSE  HistLen = 0
 INVARIANTS SetDetermined CompleteWhenAllSource NeedK SameSetsSameAnswer
 PROPERTY Stable
 CHECK_DEADLOCK FALSE
